@@ -17,6 +17,9 @@ def run(ctx):
                 'ExtractTrace.tla. distinct = distinct (event, form, kind, field, slice?, option set or text class, '
                 'outcome) tuples')
     ctx.assumptions += ['projection (harness/proj.py) and embedding parse (harness/c07_embed.py) are trusted',
+                        'nodes inside f-string replacement fields (nested f-strings, format-spec fields, self-documenting '
+                        'fields) are round-tripped like any other node; named deviation DebugTextFollowsSource: a pure AST put '
+                        'into a `{expr=}` field re-writes the field text, so only ReplaceBy.sync is owed there',
                         'structural equality is read up to loss of leading blanks in docstring continuation lines',
                         'CutPutBack domain: no DeleteDependent, no Compare operand slices (need the `op` option), no '
                         'interleaved Call args/keywords, no `_body` cut that changes which statement is the docstring',
